@@ -170,7 +170,7 @@ Outcome RunC20(RunCtx& ctx)
 		g.forceContainerRoot = true;
 		sc.doc = GenDocument(s, sim::L_DOC, g);
 		// partially read objects: the unread-member skip of the MsgPack object scope has work to do
-		if (sc.archive != A_CSV && s.chance(sim::L_PROG, 1, 2))
+		if (sc.archive != A_CSV && (s.chance(sim::L_PROG, 1, 2) || kind == F_EOF || kind == F_FAIL_LOAD))
 		{
 			ForEachNode(sc.doc, [&](DynNode& n)
 			{
